@@ -66,10 +66,13 @@ impl Scenario for Inbound {
         v.push(json!({"split": [1, 2], "cuts": 12}));
         // fine mode: the consumer threads run between the I/O thread's individual hand-overs
         v.push(json!({"split": [1, 2], "fine": true}));
+        // the channel's topology is set up first, with the nowait variants (queue, exchange,
+        // binding): nothing of that may be in the way of what the server sends afterwards
+        v.push(json!({"split": [1, 2], "topology": true}));
         v
     }
     fn bound(&self, tier: &str, p: &Value) -> usize {
-        if p["cuts"].is_u64() || p["fine"] == true {
+        if p["cuts"].is_u64() || p["fine"] == true || p["topology"] == true {
             return if tier == "thorough" { 2 } else { 1 };
         }
         if tier == "thorough" {
@@ -85,9 +88,14 @@ impl Scenario for Inbound {
         let mut broker = StdBroker::new(Handshake::default());
         let split: Vec<usize> = p["split"].as_array().unwrap().iter().map(|x| x.as_u64().unwrap() as usize).collect();
         broker.get_bodies.push_back(vec![9, 9]);
-        // channel 1: consumer tags ctag-1-2 (lazy, never drained) and ctag-1-3 (active)
-        let mut f1 = vec![deliver(1, "ctag-1-2", 10), header(1, 2, false), body(1, &[5, 5])];
-        f1.push(deliver(1, "ctag-1-3", 11));
+        // channel 1: consumer tags ctag-1-2 (lazy, never drained) and ctag-1-3 (active); three
+        // requests later when the topology is declared first
+        let topology = p["topology"] == true;
+        let k = if topology { 3 } else { 0 };
+        let (lazy_tag, active_tag) = (format!("ctag-1-{}", 2 + k), format!("ctag-1-{}", 3 + k));
+        let (lazy_tag, active_tag) = (lazy_tag.as_str(), active_tag.as_str());
+        let mut f1 = vec![deliver(1, lazy_tag, 10), header(1, 2, false), body(1, &[5, 5])];
+        f1.push(deliver(1, active_tag, 11));
         f1.push(header(1, 3, true));
         let data = [1u8, 2, 3];
         let mut off = 0;
@@ -95,15 +103,15 @@ impl Scenario for Inbound {
             f1.push(body(1, &data[off..off + s]));
             off += s;
         }
-        f1.push(deliver(1, "ctag-1-3", 12));
+        f1.push(deliver(1, active_tag, 12));
         f1.push(header(1, 0, false));
         // a second message for the consumer nobody reads
-        f1.push(deliver(1, "ctag-1-2", 13));
+        f1.push(deliver(1, lazy_tag, 13));
         f1.push(header(1, 0, true));
         f1.push(AMQPFrame::Method(1, AMQPClass::Basic(basic::AMQPMethod::Return(basic::Return { reply_code: 312, reply_text: "NO_ROUTE".into(), exchange: "rex".into(), routing_key: "rrk".into() }))));
         f1.push(header(1, 1, true));
         f1.push(body(1, &[7]));
-        chain(&mut broker, "c1", f1, None, Some((1, 3)));
+        chain(&mut broker, "c1", f1, None, Some((1, 3 + k as u32)));
         let f2 = vec![deliver(2, "ctag-2-2", 21), header(2, 1, false), body(2, &[8])];
         chain(&mut broker, "c2", f2, None, Some((2, 2)));
         let mut cfg = EnvConfig::default();
@@ -132,6 +140,14 @@ impl Scenario for Inbound {
                 let ch2 = conn.open_channel(Some(2)).expect("ch2");
                 let a = ctx.spawn("a", move |ctx| {
                     let ch: Channel = ch1;
+                    if topology {
+                        let r = ch.queue_declare_nowait("q", amiquip::QueueDeclareOptions::default()).map(|_| ());
+                        let r = r.and_then(|_| ch.exchange_declare_nowait(amiquip::ExchangeType::Direct, "ex", amiquip::ExchangeDeclareOptions::default()).map(|_| ()));
+                        let r = r.and_then(|_| ch.queue_bind_nowait("q", "ex", "rk", Default::default()));
+                        if r.is_err() {
+                            ctx.log(format!("topology -> {}", res(&r)));
+                        }
+                    }
                     let lazy = ch.basic_consume("ql", ConsumerOptions::default()).expect("consume lazy");
                     let c = ch.basic_consume("q", ConsumerOptions::default()).expect("consume");
                     let returns = ch.listen_for_returns().expect("listen returns");
@@ -184,14 +200,16 @@ impl Scenario for Inbound {
             }),
         }
     }
-    fn check(&self, _p: &Value, o: &Outcome, _w: &World) -> Vec<(String, String)> {
+    fn check(&self, p: &Value, o: &Outcome, _w: &World) -> Vec<(String, String)> {
         let mut v = Vec::new();
         let (pt, pf) = (format!("{:?}", props_of(true)), format!("{:?}", props_of(false)));
+        // (the scripted server numbers a channel's requests; the answer to the get carries the number)
+        let k = if p["topology"] == true { 3 } else { 0 };
         let want_a = vec![
             format!("delivery tag=11 red=false ex=ex11 rk=rk11 body=[1, 2, 3] props={}", pt),
             format!("delivery tag=12 red=true ex=ex12 rk=rk12 body=[] props={}", pf),
             format!("return 312 NO_ROUTE ex=rex rk=rrk body=[7] props={}", pt),
-            format!("get count=104 tag=1004 red=false ex=gx rk=gk body=[9, 9] props={}", pf),
+            format!("get count={} tag={} red=false ex=gx rk=gk body=[9, 9] props={}", 104 + k, 1004 + k, pf),
             format!("lazy tag=10 red=true ex=ex10 rk=rk10 body=[5, 5] props={}", pf),
             format!("lazy tag=13 red=false ex=ex13 rk=rk13 body=[] props={}", pt),
             "lazy count 2".to_string(),
@@ -487,6 +505,10 @@ impl Scenario for ConsumerLife {
             json!({"how": "drop-all"}),
             json!({"how": "drop-all", "fine": true}),
             json!({"how": "cancel-twice", "fine": true}),
+            // every channel id of the connection in use (channel_max 2), the consumer's channel on
+            // an id that was used before, closed and opened again by number; one more
+            // open_channel(None) is refused and the consumer goes on
+            json!({"how": "crowded"}),
         ]
     }
     fn bound(&self, tier: &str, _p: &Value) -> usize {
@@ -517,6 +539,11 @@ impl Scenario for ConsumerLife {
             }
         }
         broker.delivery_stoppers = vec![(1, 60, 30), (1, 20, 40), (0, 10, 50)];
+        if how == "crowded" {
+            // (channel 1 is closed once before the consumer's channel takes its id: the consumer is
+            // cancelled before that channel is closed, which stops the deliveries)
+            broker.delivery_stoppers = vec![(1, 60, 30), (0, 10, 50)];
+        }
         if how == "cancel-held" {
             // everything up to and including ConsumeOk is answered at once; the CancelOk is held
             broker.hold_replies = true;
@@ -536,13 +563,21 @@ impl Scenario for ConsumerLife {
             broker: Box::new(broker),
             cfg,
             root: Box::new(move |ctx: Ctx| {
-                let mut conn = match open(&ctx, ConnectionOptions::default().heartbeat(0), ConnectionTuning::default()) {
+                let crowded = how == "crowded";
+                let mut conn = match open(&ctx, ConnectionOptions::default().heartbeat(0).channel_max(if crowded { 2 } else { 0 }), ConnectionTuning::default()) {
                     Ok(c) => c,
                     Err(e) => {
                         ctx.log(format!("open -> Err({})", err_name(&e)));
                         return;
                     }
                 };
+                let mut other = None;
+                if crowded {
+                    let x = conn.open_channel(None).expect("first id");
+                    other = Some(conn.open_channel(None).expect("second id"));
+                    assert_eq!(x.channel_id(), 1);
+                    x.close().expect("close of the first channel");
+                }
                 let ch = conn.open_channel(Some(1)).expect("ch1");
                 let consumer = match ch.basic_consume("q", ConsumerOptions::default()) {
                     Ok(c) => c,
@@ -551,6 +586,13 @@ impl Scenario for ConsumerLife {
                         return;
                     }
                 };
+                if crowded {
+                    let r = conn.open_channel(None);
+                    ctx.log(format!("open-none -> {:?}", r.as_ref().map(|c| c.channel_id()).map_err(err_name)));
+                    if let Ok(c) = r {
+                        ctx.forget(c);
+                    }
+                }
                 if how == "drop-all" {
                     drop(consumer);
                     ctx.log("dropped");
@@ -579,7 +621,7 @@ impl Scenario for ConsumerLife {
                     return;
                 }
                 match how.as_str() {
-                    "cancel-twice" | "cancel-held" => {
+                    "cancel-twice" | "cancel-held" | "crowded" => {
                         // take one delivery first
                         if let Ok(m) = ctx.recv("consumer", &rx) {
                             ctx.log(format!("consumer <- {}", consumer_msg_name(&m)));
@@ -616,6 +658,10 @@ impl Scenario for ConsumerLife {
                 }
                 let r = ch.close();
                 ctx.log(format!("chclose -> {}", res(&r)));
+                if let Some(y) = other {
+                    let r = y.close();
+                    ctx.log(format!("chclose2 -> {}", res(&r)));
+                }
                 if how == "forget-close" {
                     drain_consumer(&ctx, "consumer", &rx);
                 }
@@ -644,7 +690,7 @@ impl Scenario for ConsumerLife {
             return v;
         }
         let terminal = match how {
-            "cancel-twice" | "drop" | "drop-unwinding" | "cancel-held" => "ClientCancelled",
+            "cancel-twice" | "drop" | "drop-unwinding" | "cancel-held" | "crowded" => "ClientCancelled",
             "forget-close" => "ClientClosedChannel",
             "server-cancel" => "ServerCancelled",
             _ => "ClientClosedConnection",
@@ -668,8 +714,11 @@ impl Scenario for ConsumerLife {
         let mut handled = 0usize;
         let mut ended = false;
         let mut pending = false;
+        // (crowded: id 1 has an earlier life, whose CloseOk does not end the consumer's)
+        let mut earlier_close = how == "crowded";
         for e in &o.io_events {
             match e {
+                IoEvent::Frame(AMQPFrame::Method(1, AMQPClass::Channel(pchannel::AMQPMethod::CloseOk(_)))) if earlier_close => earlier_close = false,
                 IoEvent::Frame(AMQPFrame::Method(1, AMQPClass::Basic(basic::AMQPMethod::Deliver(_)))) if !ended => pending = true,
                 IoEvent::Frame(AMQPFrame::Header(1, _, _)) if pending && !ended => {
                     handled += 1;
@@ -690,7 +739,7 @@ impl Scenario for ConsumerLife {
         let cancels = envs.iter().filter(|e| e.chan == 1 && is_method(e, 60, 30)).count();
         let cancel_oks = envs.iter().filter(|e| e.chan == 1 && is_method(e, 60, 31)).count();
         let want_cancels = match how {
-            "cancel-twice" | "drop" | "drop-unwinding" | "cancel-held" | "server-cancel" => 1,
+            "cancel-twice" | "drop" | "drop-unwinding" | "cancel-held" | "server-cancel" | "crowded" => 1,
             _ => 0,
         };
         // (whether a cancel of a consumer the server has already cancelled still goes to the
@@ -706,6 +755,9 @@ impl Scenario for ConsumerLife {
         let want_oks = if how == "server-cancel" && p["nowait"] != true && srv_cancel_seen && !sealed_first { 1 } else { 0 };
         if cancel_oks != want_oks {
             v.push(("consumer:cancel-ok-frames".into(), format!("{}: {} Basic.CancelOk frames written, expected {}", how, cancel_oks, want_oks)));
+        }
+        if how == "crowded" && !main.iter().any(|l| l == "open-none -> Err(\"ExhaustedChannelIds\")") {
+            v.push(("consumer:crowded-open".into(), format!("open_channel(None) with both ids of the connection in use: {:?}", main.iter().find(|l| l.starts_with("open-none")))));
         }
         if how != "conn-drop" && main.last().map(|s| s.as_str()) != Some("close -> Ok") {
             v.push(("consumer:close".into(), format!("{:?}", main)));
